@@ -129,8 +129,9 @@ _check_e1 = check
 def check(report, tier, only=None):
     _check_e1(report, tier, only)
     report.trusted += ['z3 5.1', 'finite-map model of HashMap', 'Connection accessors uninterpreted (checked by C04 connection_accessors)']
-    for f in (ob_compose, ob_late_exit):
-        if only and not any(s in f.__name__ for s in only):
+    from props import handler
+    for f in (ob_compose, ob_late_exit, lambda rep: handler.ob_add_peer(rep, 'C05'), lambda rep: handler.ob_handler_tail(rep, 'C05')):
+        if only and not any(s in getattr(f, '__name__', 'handler') for s in only):
             continue
         f(report)
     report.extra['mir_sha'] = mirdump.mir_sha('anemo')
